@@ -68,6 +68,9 @@ pub struct Setup {
     /// the connection is handed in as a pre-opened TCP stream although the URL names a host: the
     /// certificate is still checked against the URL's host, not against the stream's peer
     pub via_stream: bool,
+    /// the URL carries a DN, a query part and a recognised extension other than StartTLS (the same URL
+    /// an application hands to get_url_params): none of it may influence whether TLS is used
+    pub url_with_query: bool,
 }
 
 #[derive(Debug, Default, Clone)]
@@ -274,7 +277,13 @@ struct Obs {
 
 async fn client(setup: &Setup, port: u16) -> Obs {
     let host = if setup.host_is_ip { "127.0.0.1" } else { "localhost" };
-    let url = if setup.no_host_via_stream { format!("{}:///", if setup.ldaps { "ldaps" } else { "ldap" }) } else { format!("{}://{}:{}", if setup.ldaps { "ldaps" } else { "ldap" }, host, port) };
+    let mut url = if setup.no_host_via_stream { format!("{}:///", if setup.ldaps { "ldaps" } else { "ldap" }) } else { format!("{}://{}:{}", if setup.ldaps { "ldaps" } else { "ldap" }, host, port) };
+    if setup.url_with_query {
+        if !url.ends_with('/') {
+            url.push('/');
+        }
+        url.push_str("dc=example,dc=org?cn?sub?(objectClass=*)?bindname=cn=Manager%2Cdc=example%2Cdc=org");
+    }
     let mut s = LdapConnSettings::new();
     const ORDERS: [[u8; 3]; 6] = [[0, 1, 2], [0, 2, 1], [1, 0, 2], [1, 2, 0], [2, 0, 1], [2, 1, 0]];
     for step in ORDERS[(setup.builder_order % 6) as usize] {
@@ -336,6 +345,8 @@ fn matrix(rng: &mut Rng, reps: usize) -> Vec<Setup> {
                     Behaviour::Refuse(10),
                     Behaviour::RefuseThenTls(*rng.pick(&refusals)),
                     Behaviour::RefuseThenTls(10),
+                    // codes whose low octet is zero (two-octet ENUMERATED): 4096 is e-syncRefreshRequired
+                    Behaviour::RefuseThenTls(*rng.pick(&[256u32, 512, 4096, 8192, 65536])),
                     Behaviour::RefuseThenTls(1 + rng.below(123) as u32),
                     Behaviour::Garbage,
                     Behaviour::WrongResponse,
@@ -348,7 +359,7 @@ fn matrix(rng: &mut Rng, reps: usize) -> Vec<Setup> {
                 ];
                 for b in bs.drain(..) {
                     let ip_only = b == Behaviour::Tls(Cert::IpOnly);
-                    v.push(Setup { ldaps: false, starttls: true, no_verify, host_is_ip, behaviour: b, builder_order: rng.below(6) as u8, via_clone: rng.chance(1, 3), no_host_via_stream: !host_is_ip && rng.chance(1, 4), via_stream: rng.chance(1, 4) });
+                    v.push(Setup { ldaps: false, starttls: true, no_verify, host_is_ip, behaviour: b, builder_order: rng.below(6) as u8, via_clone: rng.chance(1, 3), no_host_via_stream: !host_is_ip && rng.chance(1, 4), via_stream: rng.chance(1, 4), url_with_query: rng.chance(1, 4) });
                     if ip_only {
                         // both ways of opening the connection for the certificate that is valid for the peer's address only
                         let mut other = v.last().unwrap().clone();
@@ -361,7 +372,7 @@ fn matrix(rng: &mut Rng, reps: usize) -> Vec<Setup> {
                 for &st in &[false, true] {
                     for b in [Behaviour::Tls(Cert::Good), Behaviour::Tls(Cert::WrongName), Behaviour::Tls(Cert::Untrusted), Behaviour::Tls(Cert::SelfSigned), Behaviour::Tls(Cert::IpOnly), Behaviour::Close, Behaviour::Garbage] {
                         let ip_only = b == Behaviour::Tls(Cert::IpOnly);
-                        v.push(Setup { ldaps: true, starttls: st, no_verify, host_is_ip, behaviour: b, builder_order: rng.below(6) as u8, via_clone: rng.chance(1, 3), no_host_via_stream: !host_is_ip && rng.chance(1, 4), via_stream: rng.chance(1, 4) });
+                        v.push(Setup { ldaps: true, starttls: st, no_verify, host_is_ip, behaviour: b, builder_order: rng.below(6) as u8, via_clone: rng.chance(1, 3), no_host_via_stream: !host_is_ip && rng.chance(1, 4), via_stream: rng.chance(1, 4), url_with_query: rng.chance(1, 4) });
                         if ip_only {
                             let mut other = v.last().unwrap().clone();
                             other.via_stream = !other.via_stream;
@@ -493,7 +504,7 @@ pub fn reserved_ids_probe() -> Vec<(String, String, Vec<Vec<i32>>)> {
     let out = rt.block_on(async {
         let mut out = vec![];
         for ldaps in [false, true] {
-            let setup = Setup { ldaps, starttls: !ldaps, no_verify: false, host_is_ip: false, behaviour: Behaviour::Tls(Cert::Good), builder_order: 0, via_clone: false, no_host_via_stream: false, via_stream: false };
+            let setup = Setup { ldaps, starttls: !ldaps, no_verify: false, host_is_ip: false, behaviour: Behaviour::Tls(Cert::Good), builder_order: 0, via_clone: false, no_host_via_stream: false, via_stream: false, url_with_query: false };
             let mode = if ldaps { "ldaps".to_string() } else { "ldap + StartTLS".to_string() };
             let l = match TcpListener::bind("127.0.0.1:0").await {
                 Ok(l) => l,
@@ -528,7 +539,7 @@ pub fn missing_host_probe() -> Vec<(String, String)> {
     let out = rt.block_on(async {
         let mut out = vec![];
         for ldaps in [true, false] {
-            let setup = Setup { ldaps, starttls: !ldaps, no_verify: false, host_is_ip: false, behaviour: Behaviour::Tls(Cert::Good), builder_order: 0, via_clone: false, no_host_via_stream: true, via_stream: false };
+            let setup = Setup { ldaps, starttls: !ldaps, no_verify: false, host_is_ip: false, behaviour: Behaviour::Tls(Cert::Good), builder_order: 0, via_clone: false, no_host_via_stream: true, via_stream: false, url_with_query: false };
             let l = match TcpListener::bind("127.0.0.1:0").await {
                 Ok(l) => l,
                 Err(e) => {
